@@ -21,6 +21,7 @@ pub mod c05;
 pub mod c06;
 pub mod c07;
 pub mod c13;
+pub mod c15;
 pub mod c40;
 pub mod refchecks;
 pub mod c41;
@@ -47,6 +48,7 @@ pub fn dispatch(id: &str, args: &[String]) -> ! {
         "C06" => c06::run(args),
         "C07" => c07::run(args),
         "C13" => c13::run(args),
+        "C15" => c15::run(args),
         "C40" => c40::run(args),
         "C16" => refchecks::run("C16", args),
         "C18" => refchecks::run("C18", args),
